@@ -31,6 +31,11 @@ def gen_project(rng, root):
         # import edges incl. a cycle, so that the dependency section has something to say
         imports = ["import mod%d" % ((m + 1) % n)] + (["import mod%d" % ((m + 2) % n)] if rng.random() < 0.4 else [])
         files["mod%d.py" % m] = "\n".join(imports) + "\n" + src
+    # type stubs and other files the collector also picks up, at positions that are not last in the walk order (a list shared between the analyses and
+    # edited in place by one of them shifts every later entry)
+    for m in rng.sample(range(n), rng.randint(1, 2)):
+        files["mod%d.pyi" % m] = "def fn%d_0(a: int) -> int: ...\n\nclass K%d:\n    x: int\n    def get(self) -> int: ...\n" % (m, m)
+    files["aaa_stub.pyi"] = "def helper(a: int) -> int: ...\n"
     os.makedirs(os.path.join(root, "pkg"))
     files["pkg/__init__.py"] = ""
     files["pkg/inner.py"] = "from mod0 import os\n" + gen_module(rng, 9)
@@ -168,23 +173,64 @@ def run(tier, seed, replay=None):
                 elif tool == "check_complexity":
                     S = cli["complexity"]["Summary"]
                     if (j["summary"]["total_functions"], j["summary"]["max_complexity"]) != (S["TotalFunctions"], S["MaxComplexity"]) or abs(j["summary"]["average_complexity"] - S["AverageComplexity"]) > 1e-9:
-                        bad.append(("MCP check_complexity summary %s, command line (total %d, max %d, avg %r)" % (j["summary"], S["TotalFunctions"], S["MaxComplexity"], S["AverageComplexity"]), {"kind": "mcp-vs-cli", "tool": tool}))
+                        sig = {"kind": "mcp-vs-cli", "tool": tool}
+                        # is the whole difference that the tool does not look at the type stubs (.pyi) the command line analyses? (finding F41)
+                        fl = [f for f in cli["complexity"]["Functions"] or [] if not f["FilePath"].endswith(".pyi")]
+                        if len(cli["complexity"]["Functions"] or []) == S["TotalFunctions"] and fl and (j["summary"]["total_functions"], j["summary"]["max_complexity"]) == (len(fl), max(f["Metrics"]["Complexity"] for f in fl)) \
+                                and abs(j["summary"]["average_complexity"] - sum(f["Metrics"]["Complexity"] for f in fl) / len(fl)) < 1e-9:
+                            sig["stubs_ignored"] = True
+                        bad.append(("MCP check_complexity summary %s, command line (total %d, max %d, avg %r)" % (j["summary"], S["TotalFunctions"], S["MaxComplexity"], S["AverageComplexity"]), sig))
                 elif tool == "find_dead_code":
                     a = sorted((f["file_path"], x["location"]["start_line"], x["severity"]) for f in (cli["dead_code"].get("files") or []) for fn in f["functions"] for x in fn["findings"])
                     b = sorted((x["file"], x["line"], x["severity"]) for x in j.get("issues") or [])
                     if a != b:
-                        bad.append(("MCP find_dead_code lists %s, the command line %s" % ([x for x in b if x not in a][:2] or len(b), [x for x in a if x not in b][:2] or len(a)), {"kind": "mcp-vs-cli", "tool": tool}))
+                        sig = {"kind": "mcp-vs-cli", "tool": tool}
+                        if [x for x in a if not x[0].endswith(".pyi")] == b:
+                            sig["stubs_ignored"] = True
+                        bad.append(("MCP find_dead_code lists %s, the command line %s" % ([x for x in b if x not in a][:2] or len(b), [x for x in a if x not in b][:2] or len(a)), sig))
                 elif tool in ("check_coupling", "check_cohesion"):
                     sec, tk, mk = ("cbo", "total_classes", "max_cbo") if tool == "check_coupling" else ("lcom", "total_classes", "max_lcom")
                     S = cli[sec]["Summary"]
                     want_total = S["TotalClasses"]
                     if j["summary"][tk] != want_total or j["summary"][mk] != (S["MaxCBO"] if sec == "cbo" else S["MaxLCOM"]):
                         sig = {"kind": "mcp-vs-cli", "tool": tool}
+                        cl = [c for c in cli[sec]["Classes"] or [] if not c["FilePath"].endswith(".pyi")]
+                        val = (lambda c: c["Metrics"]["CouplingCount"]) if sec == "cbo" else (lambda c: c["Metrics"]["LCOM4"])
+                        if len(cli[sec]["Classes"] or []) == want_total and cl and (j["summary"][tk], j["summary"][mk]) == (len(cl), max(val(c) for c in cl)):
+                            sig["stubs_ignored"] = True
                         bad.append(("MCP %s summary %s, command line TotalClasses %d / max %d" % (tool, j["summary"], want_total, S["MaxCBO"] if sec == "cbo" else S["MaxLCOM"]), sig))
                 elif tool == "get_health_score":
                     if (j.get("health_score"), j.get("grade")) != (cli["summary"]["health_score"], cli["summary"]["grade"]):
                         sig = {"kind": "mcp-vs-cli", "tool": tool}
                         bad.append(("MCP get_health_score says %s/%s, the command line %s/%s" % (j.get("health_score"), j.get("grade"), cli["summary"]["health_score"], cli["summary"]["grade"]), sig))
+            # ---- one server, several calls: a pyscn-mcp process keeps ONE handler set; each answer must still be the answer to ITS request -------------------
+            seq = [(["complexity"], "complexity"), (["dead_code"], "dead_code"), (None, None), (["cbo", "lcom"], "cbo"), (["deps"], "system"), (["complexity"], "complexity")]
+            rng.shuffle(seq)
+            calls2 = [("analyze_code", dict({"path": absproj, "output_mode": "full"}, **({"analyses": a} if a else {}))) for a, _ in seq] + [("get_health_score", {"path": absproj})]
+            sess = C.harness_batch("mcp_session", [{"Calls": [{"Tool": t, "Args": a} for t, a in calls2], "Cwd": root}])[0].get("outs") or []
+            hist["mcp_calls"] += len(calls2)
+            hist["mcp_session_calls"] = hist.get("mcp_session_calls", 0) + len(calls2)
+            full_mcp = strip(pj)
+            for (tool, args), o in zip(calls2, sess):
+                j = o.get("json")
+                if o.get("is_error") or j is None:
+                    bad.append(("MCP %s %s fails in a session where a single call succeeds: %s" % (tool, args.get("analyses"), str(o)[:200]), {"kind": "mcp-session-error", "tool": tool}))
+                    continue
+                if tool == "get_health_score":
+                    if (j.get("health_score"), j.get("grade")) != (cli["summary"]["health_score"], cli["summary"]["grade"]):
+                        bad.append(("MCP get_health_score after other calls on the same server says %s/%s, the command line %s/%s" % (j.get("health_score"), j.get("grade"), cli["summary"]["health_score"], cli["summary"]["grade"]),
+                                    {"kind": "mcp-session", "tool": tool}))
+                    continue
+                j = strip(j)
+                want = args.get("analyses") or ["complexity", "dead_code", "clone", "cbo", "lcom", "deps"]
+                present = [a for a, key in (("complexity", "complexity"), ("dead_code", "dead_code"), ("clone", "clone"), ("cbo", "cbo"), ("lcom", "lcom"), ("deps", "system")) if j.get(key) not in (None, {})]
+                if sorted(present) != sorted(want):
+                    bad.append(("MCP analyze_code(analyses=%s) on a server that answered other requests before returns the sections %s" % (args.get("analyses"), present), {"kind": "mcp-session", "tool": tool, "what": "sections"}))
+                    continue
+                a, b = per_file(full_mcp, lambda p: True), per_file(j, lambda p: True)
+                for sec, name in (("complexity", "complexity"), ("dead_code", "dead_code"), ("cbo", "cbo"), ("lcom", "lcom")):
+                    if name in want and a[sec] != b[sec]:
+                        bad.append(("MCP analyze_code(analyses=%s) in a session differs from the full single call in %s" % (args.get("analyses"), sec), {"kind": "mcp-session", "tool": tool, "section": sec}))
             for what, sig in bad:
                 k = C.classify(PID, sig)
                 if k:
